@@ -24,6 +24,7 @@ type c14Params struct {
 	Seed  int64      `json:"seed"`
 	Epoch string     `json:"epoch"`
 	Shift int64      `json:"shift,omitempty"` // second run places the volume at start+shift
+	Fill  bool       `json:"fill,omitempty"`  // instead of a random history: fill a subdirectory until no space is reported, then a few more calls
 	Table *TableSpec `json:"table,omitempty"`
 }
 
@@ -70,7 +71,19 @@ func c14Child(args []string) int {
 		var res core.Result
 		drv := &fsdrive.Driver{Cfg: fsdrive.Cfg{Prefix: "C14/" + v.Type, FoldCase: true, NoCompare: true}, FS: fs, Model: reftree.New(true), Res: &res}
 		g := &FatGen{R: gen.New(p.Seed), Cluster: fatClusterSize(fs), Handles: true, Invalid: true, MaxFile: 30 * fatClusterSize(fs)}
-		for i := 0; i < p.Steps; i++ {
+		if p.Fill {
+			cs := fatClusterSize(fs)
+			drv.Apply(fsdrive.Op{Kind: "mkdir", Path: "fill"})
+			for i := 0; i < 200000; i++ {
+				drv.Apply(fsdrive.Op{Kind: "write", Path: fmt.Sprintf("fill/f%05d.bin", i), Len: []int{max(cs*61, int(v.Size/60)) + 5, cs * 8, cs, 3*cs + 1}[i%4], DSeed: uint64(i + 1)})
+				if drv.History[len(drv.History)-1].Err != "" {
+					break
+				}
+			}
+			drv.Apply(fsdrive.Op{Kind: "write", Path: "fill/last-small.bin", Len: 10, DSeed: 7})
+			drv.Apply(fsdrive.Op{Kind: "mkdir", Path: "after"})
+		}
+		for i := 0; i < p.Steps && !p.Fill; i++ {
 			drv.Apply(g.Next(drv))
 		}
 		drv.CloseAll()
@@ -214,6 +227,9 @@ func c14Run(c core.Case, env *core.Env) core.Result {
 	if p.Shift != 0 {
 		res.Mark("second run at a different start offset")
 	}
+	if p.Fill {
+		res.Mark("volume filled until no space, at two different start offsets")
+	}
 	res.Sample = map[string]any{"params": p, "ops": a.Ops, "vol_hash": a.VolHash[:16]}
 	return res
 }
@@ -275,10 +291,10 @@ func init() {
 	core.Register(&core.Check{
 		ID:          "C14",
 		Level:       "exploration",
-		Rule:        "for FAT12/16/32 volumes of several sizes and start offsets and SOURCE_DATE_EPOCH in {0, 315532799 (pre-1980), odd seconds, 2001, 2107 edge}: the same seeded C01 history is run with the reproducible option in two separate worker processes, the second started 2.2 s after the first (FAT time resolution is 2 s), in another local time zone (first: UTC; second: one of Tokyo, New York, Kiritimati +14, Pago Pago -11, Kolkata +5:30, Berlin - zone data embedded in the harness binary, each child reports its zone offset), working directory, locale, HOME/TMPDIR/USER and GOMAXPROCS, and, in half of the pairs, with the volume at a different start offset; the SHA-256 of the volume's byte range must be equal; every timestamp decoded from the image by the independent reader must not lie within two days of the wall clock (leak amplifier). Tables of C02: the same GPT (GUIDs given)/MBR written on two blank devices gives identical bytes, and Read followed by Write leaves the device bytes unchanged. Non-trivial = a pair whose history executed; distinct = distinct (volume, epoch, shift, history)",
+		Rule:        "for FAT12/16/32 volumes of several sizes and start offsets and SOURCE_DATE_EPOCH in {0, 315532799 (pre-1980), odd seconds, 2001, 2107 edge}: the same seeded C01 history is run with the reproducible option in two separate worker processes, the second started 2.2 s after the first (FAT time resolution is 2 s), in another local time zone (first: UTC; second: one of Tokyo, New York, Kiritimati +14, Pago Pago -11, Kolkata +5:30, Berlin - zone data embedded in the harness binary, each child reports its zone offset), working directory, locale, HOME/TMPDIR/USER and GOMAXPROCS, and, in half of the pairs, with the volume at a different start offset (also: the volume filled file by file until it reports no space, at start 0 and at a shifted start - the course of the history, i.e. where space runs out, must be the same); the SHA-256 of the volume's byte range must be equal; every timestamp decoded from the image by the independent reader must not lie within two days of the wall clock (leak amplifier). Tables of C02: the same GPT (GUIDs given)/MBR written on two blank devices gives identical bytes, and Read followed by Write leaves the device bytes unchanged. Non-trivial = a pair whose history executed; distinct = distinct (volume, epoch, shift, history)",
 		Assumptions: []string{"the system clock cannot be changed in the sandbox: 'regardless of wall-clock time' is decided for a 2.2 s separation plus the leak amplifier (any field within two days of now while the epoch is decades away)"},
 		MinSigs:     map[string]int{"quick": 40, "thorough": 600},
-		NeedMarks:   []string{"fat12", "fat16", "fat32", "second process in another time zone, directory and locale", "second run at a different start offset", "table gpt", "table mbr"},
+		NeedMarks:   []string{"fat12", "fat16", "fat32", "second process in another time zone, directory and locale", "second run at a different start offset", "volume filled until no space, at two different start offsets", "table gpt", "table mbr"},
 		Workers:     16,
 		CPUSec:      300,
 		Cases: func(seed int64, tier string) []core.Case {
@@ -298,6 +314,16 @@ func init() {
 					p.Shift = 4096 * int64(1+r.Intn(100))
 				}
 				cs = append(cs, core.MkCase(fmt.Sprintf("pair-%d", i), "repro-"+t, r.Int63(), p))
+				if i < 3 || (tier == "thorough" && i < 30) {
+					// the same volume filled until it reports no space, at start 0 and at a shifted start: the point
+					// where space runs out must not depend on where the volume sits
+					q := p
+					q.Fill, q.Steps = true, 0
+					q.Vol.Start = 0
+					q.Vol.Size = map[string]int64{"fat12": 1474560, "fat16": 16 << 20, "fat32": 34 << 20}[t]
+					q.Shift = []int64{1 << 20, 3<<20 + 512, 64 << 20}[i%3]
+					cs = append(cs, core.MkCase(fmt.Sprintf("fill-pair-%d", i), "repro-"+t, r.Int63(), q))
+				}
 			}
 			for i, t := range c02Tables(seed*29+3, nt) {
 				if t.DevSize > 1<<34 {
